@@ -15,7 +15,9 @@
 #include <string>
 #include <unordered_set>
 #include <vector>
+#include <signal.h>
 #include <sys/mman.h>
+#include <sys/time.h>
 #include <sys/wait.h>
 #include <unistd.h>
 
@@ -67,6 +69,13 @@ inline std::string JsonEscape(const std::string& s) {
         }
     }
     return o;
+}
+
+inline std::string OneLine(std::string s) {
+    for (char& c : s)
+        if (c == '\n' || c == '\x1f')
+            c = ' ';
+    return s;
 }
 
 struct Clock {
@@ -227,32 +236,92 @@ struct WorkerBlock {
     // progress marker for crash attribution: the case being executed (free text)
     char current[512];
     int done;
+    volatile u64 heartbeat; // progress counter copied out of the worker once a second (hang detection)
 };
 
 struct PoolOutcome {
     std::vector<WorkerBlock> blocks;
-    std::vector<int> crashed; // worker indexes that died (signal / non-zero exit)
+    std::vector<int> crashed; // worker indexes that died twice (signal / non-zero exit / no progress)
     std::vector<int> status;
 };
+
+// ---- shard replay ---------------------------------------------------------------------------------
+// A worker that crashes or stops making progress cannot name the case it was in; the replay of such a
+// violation is "run that shard again": --replay "shard <tier> <pool> <index>".
+struct PoolControl {
+    int shard_pool = -1, shard_index = -1; // >= 0: only this worker of this pool is run
+    int pool_seq = 0;                      // number of RunPool calls so far
+    bool infra_failure = false;            // a worker was killed from outside (e.g. out of memory): not a verdict
+    std::string tier = "quick";
+};
+inline PoolControl& Pool() {
+    static PoolControl c;
+    return c;
+}
+inline bool ParseShardReplay(Args& a) {
+    char tier[32];
+    int pool, idx;
+    if (std::sscanf(a.replay.c_str(), "shard %31s %d %d", tier, &pool, &idx) != 3)
+        return false;
+    a.tier = tier;
+    a.replay.clear();
+    a.out = "/dev/null";
+    Pool().shard_pool = pool, Pool().shard_index = idx;
+    return true;
+}
+
+namespace detail {
+inline const Result* g_hb_src = nullptr;
+inline WorkerBlock* g_hb_dst = nullptr;
+inline void HeartbeatHandler(int) {
+    if (g_hb_src && g_hb_dst)
+        g_hb_dst->heartbeat = g_hb_src->evaluations + g_hb_src->transitions + g_hb_src->states + g_hb_src->traces_validated + g_hb_src->violation_events + 1;
+}
+} // namespace detail
 
 // fn(index, count, block, violations) -- violations are serialised as key \x1f text \x1f replay lines
 inline PoolOutcome RunPool(int jobs,
                            const std::function<void(int, int, WorkerBlock&, Result&)>& fn,
                            Result& merged) {
     PoolOutcome out;
+    PoolControl& pc = Pool();
+    const int my_seq = pc.pool_seq++;
+    pc.tier = merged.tier;
     std::size_t bytes = sizeof(WorkerBlock) * jobs;
     auto* blocks = static_cast<WorkerBlock*>(
         mmap(nullptr, bytes, PROT_READ | PROT_WRITE, MAP_SHARED | MAP_ANONYMOUS, -1, 0));
     std::memset(blocks, 0, bytes);
+    out.status.assign(jobs, 0);
+    if (pc.shard_pool >= 0 && pc.shard_pool != my_seq) { // shard replay of another pool: nothing to do here
+        for (int i = 0; i < jobs; ++i)
+            out.blocks.push_back(blocks[i]);
+        munmap(blocks, bytes);
+        return out;
+    }
     char tmpl[] = "/tmp/verif_pool_XXXXXX";
     char* dir = mkdtemp(tmpl);
-    std::vector<pid_t> pids(jobs);
+    const char* hs = std::getenv("VERIF_HANG_S");
+    const double hang_s = hs && std::atof(hs) > 0 ? std::atof(hs) : 120.0;
     std::fflush(nullptr);
-    for (int i = 0; i < jobs; ++i) {
+    auto spawn = [&](int i) -> pid_t {
+        std::memset(&blocks[i], 0, sizeof(WorkerBlock));
         pid_t p = fork();
         if (p == 0) {
             Result local;
+            local.tier = merged.tier, local.seed = merged.seed;
+            detail::g_hb_src = &local, detail::g_hb_dst = &blocks[i];
+            struct sigaction sa;
+            std::memset(&sa, 0, sizeof(sa));
+            sa.sa_handler = detail::HeartbeatHandler;
+            sa.sa_flags = SA_RESTART;
+            sigaction(SIGALRM, &sa, nullptr);
+            struct itimerval tv;
+            tv.it_interval.tv_sec = 1, tv.it_interval.tv_usec = 0, tv.it_value = tv.it_interval;
+            setitimer(ITIMER_REAL, &tv, nullptr);
             fn(i, jobs, blocks[i], local);
+            struct itimerval off;
+            std::memset(&off, 0, sizeof(off));
+            setitimer(ITIMER_REAL, &off, nullptr);
             std::string path = Fmt("%s/v%d", dir, i);
             FILE* f = std::fopen(path.c_str(), "w");
             for (auto& v : local.violations) {
@@ -262,20 +331,108 @@ inline PoolOutcome RunPool(int jobs,
             }
             for (auto& s : local.samples)
                 std::fprintf(f, "S\x1f%s\n", s.c_str());
+            // whatever the worker left in its own Result travels too (single-worker engines fill only that)
+            for (auto& kv : local.extra)
+                std::fprintf(f, "E\x1f%s\x1f%s\n", kv.first.c_str(), kv.second.c_str());
+            if (!local.rule.empty())
+                std::fprintf(f, "R\x1f%s\n", OneLine(local.rule).c_str());
+            if (!local.bound.empty())
+                std::fprintf(f, "B\x1f%s\n", OneLine(local.bound).c_str());
+            for (auto& a : local.assumptions)
+                std::fprintf(f, "A\x1f%s\n", OneLine(a).c_str());
             std::fclose(f);
+            WorkerBlock& b = blocks[i];
+            if (!b.evaluations) b.evaluations = local.evaluations;
+            if (!b.states) b.states = local.states;
+            if (!b.transitions) b.transitions = local.transitions;
+            if (!b.traces) b.traces = local.traces_validated;
+            if (!b.distinct) b.distinct = local.distinct_nontrivial;
+            if (!local.exhaustive) b.capped = 1;
             blocks[i].done = 1;
             std::fflush(nullptr);
             _exit(0);
         }
-        pids[i] = p;
-    }
-    out.status.resize(jobs);
-    for (int i = 0; i < jobs; ++i) {
-        int st = 0;
-        waitpid(pids[i], &st, 0);
-        out.status[i] = st;
-        if (!(WIFEXITED(st) && WEXITSTATUS(st) == 0) || !blocks[i].done)
-            out.crashed.push_back(i);
+        return p;
+    };
+    // run a set of workers to completion; returns per worker: 0 ok, 1 crashed (signal other than an outside kill / non-zero exit),
+    // 2 no progress for hang_s seconds (killed by us), 3 killed from outside
+    auto run_set = [&](const std::vector<int>& idxs, std::vector<int>& kind) {
+        std::vector<pid_t> pids(jobs, 0);
+        std::vector<u64> last_hb(jobs, 0);
+        std::vector<double> last_t(jobs, 0);
+        Clock clk;
+        for (int i : idxs)
+            pids[i] = spawn(i), last_t[i] = clk.Sec();
+        size_t left = idxs.size();
+        while (left) {
+            for (int i : idxs) {
+                if (!pids[i])
+                    continue;
+                int st = 0;
+                pid_t r = waitpid(pids[i], &st, WNOHANG);
+                if (r == pids[i]) {
+                    out.status[i] = st;
+                    if (WIFEXITED(st) && WEXITSTATUS(st) == 0 && blocks[i].done)
+                        kind[i] = 0;
+                    else if (WIFSIGNALED(st) && WTERMSIG(st) == SIGKILL)
+                        kind[i] = 3;
+                    else
+                        kind[i] = 1;
+                    pids[i] = 0, --left;
+                    continue;
+                }
+                u64 hb = blocks[i].heartbeat;
+                double now = clk.Sec();
+                if (hb != last_hb[i])
+                    last_hb[i] = hb, last_t[i] = now;
+                else if (now - last_t[i] > hang_s) {
+                    kill(pids[i], SIGKILL);
+                    waitpid(pids[i], &st, 0);
+                    out.status[i] = st;
+                    kind[i] = 2;
+                    pids[i] = 0, --left;
+                }
+            }
+            if (left)
+                usleep(50000);
+        }
+    };
+    std::vector<int> all, kind(jobs, 0);
+    for (int i = 0; i < jobs; ++i)
+        if (pc.shard_pool < 0 || pc.shard_index == i)
+            all.push_back(i);
+    run_set(all, kind);
+    // a worker that died or stalled is run once more, alone: only a failure that repeats is a verdict
+    for (int i : all) {
+        if (kind[i] == 0)
+            continue;
+        int first = kind[i];
+        std::string where = blocks[i].current;
+        std::vector<int> k2(jobs, 0);
+        if (pc.shard_pool >= 0)
+            k2[i] = first; // a shard replay is itself the second run
+        else
+            run_set({i}, k2);
+        if (k2[i] == 0) {
+            merged.Extra(Fmt("pool%d_worker%d_retried_after", my_seq, i), (u64)first);
+            kind[i] = 0;
+            continue;
+        }
+        kind[i] = k2[i];
+        if (k2[i] == 3 || first == 3) {
+            pc.infra_failure = true;
+            continue;
+        }
+        out.crashed.push_back(i);
+        merged.exhaustive = false;
+        int st = out.status[i];
+        std::string how = k2[i] == 2 ? Fmt("made no progress for %.0f s (twice)", hang_s)
+                          : WIFSIGNALED(st) ? Fmt("died with signal %d (twice)", WTERMSIG(st)) : Fmt("exited with status %d (twice)", WIFEXITED(st) ? WEXITSTATUS(st) : -1);
+        std::string cur = blocks[i].current[0] ? blocks[i].current : where;
+        merged.AddViolation(k2[i] == 2 ? "pool:worker-hang" : "pool:worker-crash",
+                            Fmt("worker %d of %d (exploration pool %d, tier %s) %s while executing the real code%s%s; the property cannot hold on an input on which the "
+                                "emulator does not return", i, jobs, my_seq, merged.tier.c_str(), how.c_str(), cur.empty() ? "" : "; last case: ", cur.c_str()),
+                            Fmt("shard %s %d %d", merged.tier.c_str(), my_seq, i));
     }
     for (int i = 0; i < jobs; ++i) {
         out.blocks.push_back(blocks[i]);
@@ -308,6 +465,18 @@ inline PoolOutcome RunPool(int jobs,
                 if (parts.size() == 2 && parts[0] == "S") {
                     if (merged.samples.size() < 12)
                         merged.samples.push_back(parts[1]);
+                } else if (parts.size() == 3 && parts[0] == "E") {
+                    merged.extra[parts[1]] = parts[2];
+                } else if (parts.size() == 2 && parts[0] == "R") {
+                    if (merged.rule.empty())
+                        merged.rule = parts[1];
+                } else if (parts.size() == 2 && parts[0] == "B") {
+                    if (merged.bound.empty())
+                        merged.bound = parts[1];
+                } else if (parts.size() == 2 && parts[0] == "A") {
+                    std::string a = parts[1];
+                    if (std::find(merged.assumptions.begin(), merged.assumptions.end(), a) == merged.assumptions.end())
+                        merged.assumptions.push_back(a);
                 } else if (parts.size() == 4) {
                     u64 c = std::strtoull(parts[3].c_str(), nullptr, 10);
                     auto& cc = merged.violation_class_counts[parts[0]];
@@ -324,6 +493,26 @@ inline PoolOutcome RunPool(int jobs,
     rmdir(dir);
     munmap(blocks, bytes);
     return out;
+}
+
+// A single-process exploration under the same supervision (crash / no-progress detection, shard replay) as a pool worker.
+inline void RunIsolated(Result& merged, const std::function<void(Result&)>& fn) {
+    RunPool(1, [&](int, int, WorkerBlock&, Result& local) { fn(local); }, merged);
+}
+
+// Exit code of an engine main after its exploration: 2 when a worker was killed from outside (no verdict), the shard
+// replay's verdict when one was asked for, otherwise whether the result file could be written.
+inline int Finish(const Args& args, Result& res, bool shard_replay) {
+    if (Pool().infra_failure) {
+        std::fprintf(stderr, "a worker process was killed from outside (out of memory?): no verdict\n");
+        return 2;
+    }
+    if (shard_replay) {
+        for (auto& v : res.violations)
+            std::fprintf(stderr, "  %s\n    %s\n", v.key.c_str(), v.text.c_str());
+        return res.violations.empty() ? 0 : 1;
+    }
+    return res.Write(args.out.c_str()) ? 0 : 2;
 }
 
 // Silence library chatter (BTDMP underrun, unbound MMIO cells...) on stdout; engines print their own
